@@ -79,7 +79,9 @@ def wfReport (p : Program Float) : String :=
   let tailEvery := p.bodies.all (fun (_, b) => wfE b && tailR b)
   let closed := ids.all (fun q => (lookupBody p.bodies q.1).isSome)
   let balancedWF := tailEvery && closed && labels
-  s!"wf={all} complete={complete} labels={labels} covered={covered} distinct={distinct} wfE={wf} tail={tail} balancedWF={balancedWF}"
+  -- `WFProgramC` (Props/C01Compile.lean): else-chains may lack the final arm (hypothesis of `C01_compile_correct_chain`)
+  let wfc := labels && covered && p.bodies.all (fun (_, b) => wfC b) && tail
+  s!"wf={all} complete={complete} labels={labels} covered={covered} distinct={distinct} wfE={wf} tail={tail} balancedWF={balancedWF} wfC={wfc}"
 
 /-- the harness's DUMP line -> program (constants allocated in order of appearance) and entry jump index -/
 def parseDump (line : String) : Option (Prog Float × Nat) :=
